@@ -24,6 +24,7 @@ const (
 	CurrentName     = "currentonly"
 	SwallowName     = "swallow"
 	EmptyName       = "empty"
+	EmptiedName     = "emptied"
 )
 
 type Table struct {
@@ -120,6 +121,7 @@ var indexesSchema = sql.Schema{
 }
 var currentSchema = sql.Schema{{Name: "NAME", Type: types.Text, Source: CurrentName}}
 var swallowSchema = sql.Schema{{Name: "INDEX", Type: types.Text, Source: SwallowName}}
+var emptiedSchema = sql.Schema{{Name: "SCHEMA", Type: types.Text, Source: EmptiedName}}
 var emptySchema = sql.Schema{{Name: "A", Type: types.Text, Source: EmptyName}}
 
 // orphanSchema is declared but never registered (R1 schema/orphanSchema).
@@ -330,6 +332,7 @@ func GetTables() map[string]interface{} {
 		IndexesName:     &Table{Name: IndexesName, Schema: indexesSchema, Reader: indexesRowIter},
 		CurrentName:     &Table{Name: CurrentName, Schema: currentSchema, Reader: currentOnlyRowIter},
 		EmptyName:       &Table{Name: EmptyName, Schema: emptySchema, Reader: emptyReader},
+		EmptiedName:     &Table{Name: EmptiedName, Schema: emptiedSchema, Reader: emptiedRowIter},
 	}
 }
 
@@ -349,4 +352,23 @@ func (db *isDatabase) GetTableInsensitive(ctx *sql.Context, name string) (interf
 	}
 	t, ok := db.tables[strings.ToLower(name)]
 	return t, ok
+}
+
+// emptiedRowIter enumerates the table names and lists nothing (E1 rows): the arm that built the rows was emptied.
+func emptiedRowIter(ctx *sql.Context, cat sql.Catalog) (sql.RowIter, error) {
+	var rows []sql.Row
+	dbs, err := AllDatabasesWithNames(ctx, cat, false)
+	if err != nil {
+		return nil, err
+	}
+	for _, db := range dbs {
+		names, err := db.Database.GetTableNames(ctx)
+		if err != nil {
+			return nil, err
+		}
+		for range names {
+		}
+		rows = append(rows, sql.Row{db.Schema})
+	}
+	return sql.RowsToRowIter(rows...), nil
 }
